@@ -364,6 +364,7 @@ def congruent_bases(rng, L):
     """three bases congruent modulo L that differ in their low bits (516 and 1032 for L = 6)"""
     b0 = rng.choice([0, L, rng.randrange(0, L), rng.randrange(0, 0o2000)]) % L if L > 0o2000 else rng.choice([0, L, 2 * L, rng.randrange(0, 3 * L), rng.randrange(0, 0o2000)])
     kmax = (65535 - b0) // L          # every base is a 16-bit address
+    assert kmax >= 2, (L, b0)
     ks = set()
     while len(ks) < 3:
         ks.add(rng.choice([rng.randrange(0, min(40, kmax) + 1), rng.randrange(0, kmax + 1)]))
@@ -380,10 +381,10 @@ def make_case(rng):
         L = 1
         for c in counts:
             L = L * c // math.gcd(L, c)
-        if L > 20000:
-            counts, L = counts[:1], counts[0]
         if L % 2 and rng.random() < 0.5:
             L *= 2          # so that .even/.odd/.word may be mixed in
+        if L > 20000:       # three different 16-bit bases congruent modulo L must exist
+            counts, L = counts[:1], counts[0]
         bases = congruent_bases(rng, L)
         mods = counts + [m for m in range(1, 41) if L % m == 0 and rng.random() < 0.2]
     else:
